@@ -7,8 +7,12 @@ def run(ctx, replay):
     # between blocks (the reward calculator's cached amount) matters most
     # family allegset: guided histories with guilty verdicts (a penalty is decided in one block and carried out in later ones:
     # whatever is remembered about it between blocks has to survive a restart)
-    replica.run(ctx, "C08", replay, families=replica.FAMILIES + ["rewards", "allegset"])
+    # family govfee: a passed proposal changes the minimal fee and transfers at the old and the new price follow: option
+    # copies kept in memory (and anything computed from them) must equal what a restarted node reads from the store
+    # family govstake: the same with a staking option, on the genesis whose fork rewrites the staking options (the record
+    # is written under a height and found through a last-update height: a restarted node has to reproduce both)
+    replica.run(ctx, "C08", replay, families=replica.FAMILIES + ["rewards", "allegset", "govfee", "govstake"])
     ctx.cov.setdefault("rule", RULE)
 
 
-RULE = "per history three twins that die at 1-3 call boundaries (after BeginBlock, after the k-th DeliverTx, after EndBlock, after Commit) and are restarted in a new process from the same data directory; Info must report the last completed commit and all later results must equal the reference's; twelve families, among them long histories over the whole reward schedule and guided histories with allegation verdicts"
+RULE = "per history three twins that die at 1-3 call boundaries (after BeginBlock, after the k-th DeliverTx, after EndBlock, after Commit) and are restarted in a new process from the same data directory; Info must report the last completed commit and all later results must equal the reference's; fifteen families, among them long histories over the whole reward schedule, guided histories with allegation verdicts, and histories in which a passed proposal changes the minimal fee"
